@@ -65,6 +65,22 @@ def step (w : List String) : String :=
         | some e => e.tag ++ " " ++ hexS val
       if mode = "s" then res ++ " " ++ specLine env ts else res
     | _, _, _, _, _, _, _, _ => "bad-op"
+  | "dn" :: dir :: num :: off :: sh :: names :: rest =>
+    match dirOf dir, parseInt? num, parseInt? off, unhexS sh, parseNames names with
+    | some d, some n, some o, some sheet, some nm =>
+      -- groups separated by "|": <hex text> <tok>...
+      let groups := (rest.foldl (fun (acc : List (List String)) w =>
+        if w = "|" then [] :: acc else match acc with | g :: gs => (w :: g) :: gs | [] => [[w]]) []).reverse.map List.reverse
+      let parsed := groups.map (fun g => match g with
+        | h :: ts => match unhexS h, parseToks ts with
+          | some data, some toks => some (data, toks)
+          | _, _ => none
+        | [] => none)
+      if parsed.all Option.isSome then
+        let ds := parsed.filterMap id
+        String.intercalate "," ((Impl.adjustDefinedNames sheet ⟨d, n, o⟩ nm ds).map hexS)
+      else "bad-op"
+    | _, _, _, _, _ => "bad-op"
   | ["esc", h] =>
     match unhexS h with
     | some s => hexS (Impl.escapeSheetName s)
